@@ -126,6 +126,8 @@ impl Runner {
         let mut num_spawned = 0;
 
         std::thread::scope(|s| {
+            #[cfg(feature = "verif-hooks")]
+            let _verif_scope = crate::verif::ScopeGuard;
             let mut chunk: usize = runner.chunk_size.inner();
             'lag_period: loop {
                 for _ in 0..LAG_PERIODICITY {
@@ -189,6 +191,8 @@ impl Runner {
         let mut num_spawned = 0;
 
         std::thread::scope(|s| {
+            #[cfg(feature = "verif-hooks")]
+            let _verif_scope = crate::verif::ScopeGuard;
             let mut handles = vec![];
             let mut chunk: usize = runner.chunk_size.inner();
             'lag_period: loop {
@@ -230,6 +234,8 @@ impl Runner {
 
             let mut vec = vec![];
             for x in handles {
+                #[cfg(feature = "verif-hooks")]
+                crate::verif::spawner_point(crate::verif::SpawnerPoint::BeforeJoinOne, vec.len());
                 vec.push(x.join().expect("failed to join the thread"));
             }
             vec
@@ -257,6 +263,8 @@ impl Runner {
         let thread_task = &crate::verif::wrap_task(thread_task);
 
         std::thread::scope(|s| {
+            #[cfg(feature = "verif-hooks")]
+            let _verif_scope = crate::verif::ScopeGuard;
             let mut threads = Vec::with_capacity(runner.max_num_threads);
 
             let mut chunk: usize = runner.chunk_size.inner();
@@ -297,6 +305,8 @@ impl Runner {
             crate::verif::spawner_point(crate::verif::SpawnerPoint::BeforeJoin, threads.len());
 
             let num_threads = threads.len();
+            #[cfg(feature = "verif-hooks")]
+            let threads = crate::verif::hooked_joins(threads);
             let result = threads
                 .into_iter()
                 .map(|x| x.join().expect("Failed to join thread"))
